@@ -262,7 +262,8 @@ def detectors(w, seed, spec):
     fails = []
     for shape in ((3,), (3, 2), (2, 1)):
         x, y = rng.uniform(-1, 1, shape), rng.uniform(-1, 1, shape)
-        for z in (1.0, 0.42, rng.uniform(0.5, 2, shape)):
+        # "all detector layouts": directions behind the focal plane (z < 0) and mixed signs are layouts too
+        for z in (1.0, 0.42, rng.uniform(0.5, 2, shape), -1.0, rng.uniform(-2, 2, shape)):
             d = DetectorArray(x, y, z)
             zz = np.broadcast_to(z, shape)
             n = np.sqrt(x ** 2 + y ** 2 + zz ** 2)
